@@ -77,12 +77,14 @@ pub fn sweep(panic_only: bool) -> (u64, Vec<(String, String)>) {
         for crlf in [false, true] {
             for (kind, entry, _syntax) in &invalid {
                 for with_suffix in [false, true] {
-                    for placement in 0..3 {
+                    for placement in 0..5 {
                         evaluated += 1;
                         let mut body = format!("{}{}", prefix, entry);
                         if with_suffix { body.push('\n'); body.push_str(valid); }
                         if crlf { body = body.replace('\n', "\r\n"); }
-                        let first = prefix.matches('\n').count() + 1;
+                        // placements 3 and 4 put two include lines (of an empty and of a blank-only file) in front of the body
+                        let shift = if placement >= 3 { 4 } else { 0 };
+                        let first = prefix.matches('\n').count() + 1 + shift;
                         let last = first + 2;
                         let mut files: HashMap<PathBuf, Vec<u8>> = HashMap::new();
                         let (containing, desc_files) = match placement {
@@ -92,6 +94,26 @@ pub fn sweep(panic_only: bool) -> (u64, Vec<(String, String)>) {
                                 files.insert(PathBuf::from("/root/main.ledger"), root.clone().into_bytes());
                                 files.insert(PathBuf::from("/root/sub/inc.ledger"), body.clone().into_bytes());
                                 ("/root/sub/inc.ledger", format!("/root/main.ledger = {:?}; /root/sub/inc.ledger = {:?}", root, body))
+                            }
+                            3 => {
+                                // the invalid entry follows includes of an empty and of a blank-only file (seed C14-j: the diagnostic named the empty child)
+                                let nl = if crlf { "\r\n" } else { "\n" };
+                                let root = format!("include empty.ledger{nl}{nl}include sub/blank.ledger{nl}{nl}{}", body, nl = nl);
+                                files.insert(PathBuf::from("/root/main.ledger"), root.clone().into_bytes());
+                                files.insert(PathBuf::from("/root/empty.ledger"), Vec::new());
+                                files.insert(PathBuf::from("/root/sub/blank.ledger"), b"\n\n".to_vec());
+                                ("/root/main.ledger", format!("/root/main.ledger = {:?}; /root/empty.ledger = \"\"; /root/sub/blank.ledger = \"\\n\\n\"", root))
+                            }
+                            4 => {
+                                // the same inside an included file, the empty files reached through `..`
+                                let nl = if crlf { "\r\n" } else { "\n" };
+                                let root = format!("{}include sub/inc.ledger\n", valid);
+                                let inc = format!("include ../empty.ledger{nl}{nl}include blank.ledger{nl}{nl}{}", body, nl = nl);
+                                files.insert(PathBuf::from("/root/main.ledger"), root.clone().into_bytes());
+                                files.insert(PathBuf::from("/root/sub/inc.ledger"), inc.clone().into_bytes());
+                                files.insert(PathBuf::from("/root/empty.ledger"), Vec::new());
+                                files.insert(PathBuf::from("/root/sub/blank.ledger"), b"\n\n".to_vec());
+                                ("/root/sub/inc.ledger", format!("/root/main.ledger = {:?}; /root/sub/inc.ledger = {:?}; /root/empty.ledger = \"\"; /root/sub/blank.ledger = \"\\n\\n\"", root, inc))
                             }
                             _ => {
                                 let root = format!("; root\n\ninclude a.ledger\n\n{}", valid);
@@ -114,7 +136,7 @@ pub fn sweep(panic_only: bool) -> (u64, Vec<(String, String)>) {
                                 let (file, line, gutter) = locate(&text);
                                 // the file is named either after `-->` or in the "failed to parse file .." line
                                 let names_file = file.as_deref() == Some(containing) || text.contains(&format!("file {}", containing));
-                                let names_other = ["/root/main.ledger", "/root/sub/inc.ledger", "/root/a.ledger", "/root/deep/b.ledger"].iter().any(|f| *f != containing && (file.as_deref() == Some(*f) || text.contains(&format!("file {}", f))));
+                                let names_other = ["/root/main.ledger", "/root/sub/inc.ledger", "/root/a.ledger", "/root/deep/b.ledger", "/root/empty.ledger", "/root/sub/blank.ledger"].iter().any(|f| *f != containing && (file.as_deref() == Some(*f) || text.contains(&format!("file {}", f))));
                                 if !names_file || names_other {
                                     Some(format!("the diagnostic does not name {} (and only it): {}", containing, text.lines().take(3).collect::<Vec<_>>().join(" / ")))
                                 } else if let Some(l) = line.filter(|l| *l < first || *l > last) {
